@@ -56,15 +56,27 @@ def save (rule : EpochRule) (s : Sim) : Sim :=
 def init (rule : EpochRule) (dt span : Nat) (agents tracked : List Nat) : Sim :=
   save rule ⟨0, ⟨clockEpochs dt span, [], [], []⟩, [], [], agents, tracked⟩
 
-/-- one iteration of `propagateTo`'s loop: `stepForward` (rows produced this step carry the new
-epoch), then the output test -/
-def step (rule : EpochRule) (dt out : Nat) (s : Sim) (newRows : List Nat) : Sim :=
+/-- what one step contributes: the transient rows it produces and the agent sets the scenario holds after it
+(targets and sensors join or leave through scenario-step events) -/
+structure StepIn where
+  rows : List Nat
+  agents : List Nat
+  tracked : List Nat
+deriving Repr, DecidableEq
+
+/-- one iteration of `propagateTo`'s loop: `stepForward` (events may change the agent sets; rows produced this step carry
+the new epoch), then the output test -/
+def step (rule : EpochRule) (dt out : Nat) (s : Sim) (inp : StepIn) : Sim :=
   let t := s.time + dt
-  let s1 : Sim := { s with time := t, pendingEpochs := s.pendingEpochs ++ [t], pendingTrans := s.pendingTrans ++ newRows.map (·, t) }
+  let s1 : Sim := { s with time := t, pendingEpochs := s.pendingEpochs ++ [t], pendingTrans := s.pendingTrans ++ inp.rows.map (·, t),
+                           agents := inp.agents, tracked := inp.tracked }
   if t % out = 0 then save rule s1 else s1
 
-/-- a run: the rows produced in each step are given -/
-def run (rule : EpochRule) (dt out : Nat) (s : Sim) (rowsPerStep : List (List Nat)) : Sim :=
-  rowsPerStep.foldl (step rule dt out) s
+/-- a run: what each step contributes is given -/
+def run (rule : EpochRule) (dt out : Nat) (s : Sim) (steps : List StepIn) : Sim :=
+  steps.foldl (step rule dt out) s
+
+/-- steps of a scenario whose agent sets never change -/
+def constSteps (agents tracked : List Nat) (rows : List (List Nat)) : List StepIn := rows.map fun r => ⟨r, agents, tracked⟩
 
 end RV.Database
